@@ -80,6 +80,6 @@ fn run(r: &mut Run) -> Result<(), MachineryError> {
     let wild = frag_menu(&[0.0, 1.0, 0.5, -1.0, 3.0, 1e300, -1e300, 18446744073709551616.0], &[0.0, 1.0, -2.0, 0.25], &[0.0, 1.0, -1.0, 0.5]);
     let ints = frag_menu(&[0.0, 1.0, 2.0, 3.0, 5.0], &[0.0, 1.0, 2.0], &[0.0, 1.0]);
     space(r, "C06/finite-wild(128-menu)", wild, t.pick(2, 3))?;
-    space(r, "C06/integers(30-menu)", ints, t.pick(3, 5))?;
+    space(r, "C06/integers(30-menu)", ints, t.pick(4, 5))?;
     Ok(())
 }
